@@ -56,10 +56,11 @@ def exc_tuple(names):
 class Ctx:
     """per-build context: call log shared by all menu functions of this pipeline"""
 
-    def __init__(self, log=None, source_mode='pickle'):
+    def __init__(self, log=None, source_mode='pickle', view='direct'):
         self.log = log
         self.counter = itertools.count()
         self.source_mode = source_mode
+        self.view = view
 
     def fn(self, spec):
         return Fn(spec, self.log, next(self.counter) if self.log is not None else None)
@@ -157,6 +158,19 @@ def observe(p, idx, keys, cycle_k=0, ctx=None):
     except BaseException as e:  # noqa
         from fnmenu import exc_name
         return {'build': exc_name(e)}, None
+    # the pipeline observed directly or through a view that must be transparent: a copy, a frozen copy
+    # (nothing in this family is random per epoch), a profiling wrapper
+    view = getattr(ctx, 'view', 'direct')
+    if view != 'direct' and p['op'] != 'cycle':
+        try:
+            if view == 'copy':
+                ds = ds.copy()
+            elif view == 'freeze':
+                ds = ds.copy(freeze=True)
+            elif view == 'profiled':
+                ds = lazy_dataset.core.ProfilingDataset(ds)
+        except NotImplementedError:
+            pass                # a stage without copy() (CycleDataset) refuses loudly: observed directly
     limit = cycle_k if p['op'] == 'cycle' else None
     r = {'build': 'ok'}
     r['indexable'] = outcome(lambda: bool(ds.indexable), lambda b: b)
